@@ -289,6 +289,32 @@ def sliceInit : PV → PV
   | err e => err e
   | _ => err "TypeError"
 
+/-- `x[-1]`: the last element as a NumPy scalar of the array's dtype -/
+def indexLast : PV → PV
+  | arr w xs => (match xs.getLast? with | some v => uns w v | none => err "IndexError")
+  | err e => err e
+  | _ => err "TypeError"
+
+/-- `len(x)` of an array or list -/
+def len : PV → PV
+  | arr _ xs => int xs.length
+  | barr xs => int xs.length
+  | err e => err e
+  | _ => err "TypeError"
+
+/-- `np.zeros((n,), dtype=np.uintN)`; also stands for `np.empty` whose elements are all assigned before they are read -/
+def npZeros (n : PV) (w : W) : PV :=
+  match n with
+  | int i => if 0 ≤ i then arr w (List.replicate i.toNat 0) else err "ValueError"
+  | err e => err e
+  | _ => err "TypeError"
+
+/-- `list(x)` of a list of ints -/
+def toList : PV → PV
+  | arr _ xs => arr .big xs
+  | err e => err e
+  | _ => err "TypeError"
+
 /-- `x.item(-1)`: the last element as a Python int -/
 def itemLast : PV → PV
   | arr _ xs => (match xs.getLast? with | some v => int v | none => err "IndexError")
